@@ -390,7 +390,7 @@ def gen_items(rng, used, shape=None, free_hint=157):
         if T.split_source(name)[4] in paths:
             name = D.gen_disk_name(rng, used)
         paths.add(T.split_source(name)[4])
-        c = T.content_for(rng, size) if size < 30000 else bytes([rng.getrandbits(8)]) * size
+        c = T.content_for(rng, size) if size < 30000 else (rng.randbytes(size) if rng.random() < 0.7 else bytes([rng.getrandbits(8)]) * size)
         return ("file", name, c)
 
     if shape == "one":
@@ -456,7 +456,7 @@ def gen_aside(rng, nfiles=None, weird=True, full_catalog=False):
         if full_catalog:
             n = 1
         chain = [avail.pop() for _ in range(n)]
-        ls = rng.choice([1, 2, 5, 8, 8])
+        ls = rng.choice([1, 2, 3, 4, 5, 6, 7, 8, 8])
         lb = rng.choice([0, 1, 127, 254, 255, rng.randint(0, 255)])
         size = 255 * (8 * (n - 1) + ls - 1) + lb
         while True:
@@ -464,14 +464,14 @@ def gen_aside(rng, nfiles=None, weird=True, full_catalog=False):
             ex = rng.choice(["BAS", "BIN", "DAT", "TXT", "", "A", "Z9"])
             if weird and rng.random() < 0.3:
                 # what another system may have written: lower-case letters, blanks, dots, commas, punctuation — shown and extracted as stored
-                nm = "".join(rng.choice("abcdefghijklmnopqrstuvwxyzABCXYZ019 .,!#$%&'()+;=@[]^{}~") for _ in range(rng.choice([1, 3, 5, 8])))
+                nm = "".join(rng.choice("abcdefghijklmnopqrstuvwxyzABCXYZ019 .,!#$%&'()+;=@[]^{}~:\"\\<>?|\x7f") for _ in range(rng.choice([1, 3, 5, 8])))
                 ex = rng.choice(["bas", "Bas", "txt", "dat", "a b", "x,y", "b", "", "BIN", "é"[:0] + "z9"])
                 if nm.strip() in ("", ".", "..") or nm != nm.rstrip() or nm.startswith("-"):
                     continue
             if (nm, ex) not in names:
                 names.add((nm, ex))
                 break
-        content = T.content_for(rng, size) if size < 20000 else bytes([rng.getrandbits(8)]) * size
+        content = T.content_for(rng, size) if size < 20000 else (rng.randbytes(size) if rng.random() < 0.7 else bytes([rng.getrandbits(8)]) * size)
         nb, eb = bytearray((nm + " " * 8)[:8].encode()), bytearray((ex + "   ")[:3].encode())
         if weird and rng.random() < 0.2:
             # a control character in one of the eleven name bytes (another system may have left it): shown and extracted as 'x'
@@ -480,7 +480,9 @@ def gen_aside(rng, nfiles=None, weird=True, full_catalog=False):
             if (shown(bytes(nb)).rstrip(), shown(bytes(eb)).rstrip()) in {(shown(x["name"]).rstrip(), shown(x["ext"]).rstrip()) for x in files}:
                 nb, eb = bytearray((nm + " " * 8)[:8].encode()), bytearray((ex + "   ")[:3].encode())
         files.append({"slot": slots.pop(), "name": bytes(nb), "ext": bytes(eb),
-                      "kind": rng.choice([0, 1, 2, 3]), "flag": rng.choice([0, 0xFF]), "chain": chain, "lastSectors": ls, "lastBytes": lb,
+                      # the kind and flag bytes another system may have left: kinds beyond 0..3 read as data, any flag but FF as binary / tokenized
+                      "kind": rng.choice([0, 1, 2, 3]) if not weird or rng.random() < 0.8 else rng.choice([4, 7, 9, 128, 250, 255]),
+                      "flag": rng.choice([0, 0xFF]) if not weird or rng.random() < 0.8 else rng.choice([1, 0x7F, 0x80, 0xFE]), "chain": chain, "lastSectors": ls, "lastBytes": lb,
                       "content": content})
     deleted = []
     for _ in range(0 if full_catalog else rng.choice([0, 0, 1, 3, 7])):
